@@ -244,6 +244,12 @@ def go_test(ctx, pkg, run, files=(), env=None, race=False, timeout=900, synctest
            '-run', '^%s$' % run, '-timeout', '%ds' % timeout]
     if race:
         cmd.append('-race')
+    cov = os.environ.get('VERIF_COVER')   # tools/coverage.py: which statements of /repo do the drivers reach?
+    if cov:
+        os.makedirs(cov + '/raw', exist_ok=True)
+        n = len(os.listdir(cov))
+        cmd += ['-cover', '-coverpkg=github.com/cbeuw/Cloak/...', '-coverprofile=%s/%s_%s_%s_%d.out' % (cov, ctx.pid, pkg, run, n)]
+        e['VERIF_COVDIR'] = cov + '/raw'
     cmd += ['./' + PKGDIR[pkg] + '/']
     cmd += list(args)
     return sh(cmd, cwd=REPO, env=e, timeout=timeout + 60)
